@@ -605,7 +605,12 @@ pub(crate) async fn execute_schema(agent: &Agent, statements: Vec<String>) -> ey
 
     // conn.trace(None);
 
-    apply_res?;
+    if let Err(e) = apply_res {
+        // cr-sqlite keeps per-connection state about the tables it altered or
+        // created in the transaction we just rolled back: don't reuse it
+        conn.discard();
+        return Err(e);
+    }
 
     *schema_write = new_schema;
 
